@@ -234,6 +234,9 @@ pub fn top_fn_bodies(src: &str, edition: &str) -> Option<Vec<FnBody>> {
 // skip-attribute location (for C07/C08 exemptions): byte ranges of nodes carrying rustfmt::skip
 
 fn attr_is_skip(a: &ast::Attribute) -> bool {
+    if a.is_doc_comment() {
+        return false;
+    }
     let s = rustc_ast_pretty::pprust::attribute_to_string(a);
     let compact: String = s.chars().filter(|c| !c.is_whitespace()).collect();
     compact.contains("rustfmt::skip]")
@@ -312,6 +315,145 @@ pub fn skip_ranges(src: &str, edition: &str) -> Option<Vec<(usize, usize)>> {
         if k.attrs.iter().any(attr_is_skip) {
             f.out.push((0, len));
         }
+        visit::walk_crate(&mut f, k);
+        Some(f.out)
+    })
+}
+
+/// A node that carries a skip attribute.
+#[derive(Debug, Clone)]
+pub struct SkipNode {
+    pub lo: usize,
+    pub hi: usize,
+    /// end of the last outer attribute (== lo if there is none)
+    pub attrs_hi: usize,
+    /// item | assoc | foreign | stmt | expr | arm | field | variant | expr_field | param
+    pub kind: &'static str,
+    /// inside an expression-level block (closure body, block expression, arm body, ...)
+    pub nested: bool,
+}
+
+struct SkipNodeFinder<'a> {
+    sm: &'a SourceMap,
+    out: Vec<SkipNode>,
+    /// depth of expression-level blocks and of impl/trait bodies (both are laid out in a buffer
+    /// of their own)
+    expr_depth: usize,
+}
+
+impl<'a> SkipNodeFinder<'a> {
+    fn check(&mut self, attrs: &[ast::Attribute], sp: Span, kind: &'static str) {
+        if attrs.iter().any(attr_is_skip) {
+            let (lo, hi) = span_range(self.sm, with_attrs(sp, attrs));
+            let mut attrs_hi = lo;
+            for a in attrs {
+                if matches!(a.style, ast::AttrStyle::Outer) && !a.span.from_expansion() {
+                    let (_, h) = span_range(self.sm, a.span);
+                    if h <= hi {
+                        attrs_hi = attrs_hi.max(h);
+                    }
+                }
+            }
+            self.out.push(SkipNode { lo, hi, attrs_hi, kind, nested: self.expr_depth > 0 });
+        }
+    }
+}
+
+impl<'a, 'ast> Visitor<'ast> for SkipNodeFinder<'a> {
+    fn visit_item(&mut self, i: &'ast ast::Item) {
+        self.check(&i.attrs, i.span, "item");
+        visit::walk_item(self, i);
+    }
+    fn visit_assoc_item(&mut self, i: &'ast ast::AssocItem, ctxt: visit::AssocCtxt) {
+        self.expr_depth += 1;
+        self.check(&i.attrs, i.span, "assoc");
+        visit::walk_assoc_item(self, i, ctxt);
+        self.expr_depth -= 1;
+    }
+    fn visit_foreign_item(&mut self, i: &'ast ast::ForeignItem) {
+        self.check(&i.attrs, i.span, "foreign");
+        visit::walk_item(self, i);
+    }
+    fn visit_stmt(&mut self, s: &'ast ast::Stmt) {
+        match &s.kind {
+            ast::StmtKind::Let(l) => self.check(&l.attrs, s.span, "stmt"),
+            ast::StmtKind::MacCall(m) => self.check(&m.attrs, s.span, "stmt"),
+            ast::StmtKind::Expr(e) | ast::StmtKind::Semi(e) => {
+                // an expression statement: the attribute sits on the expression, the statement
+                // visitor copies the whole statement
+                self.check(&e.attrs, s.span, "stmt");
+                self.expr_depth += 1;
+                visit::walk_expr(self, e);
+                self.expr_depth -= 1;
+                return;
+            }
+            _ => {}
+        }
+        visit::walk_stmt(self, s);
+    }
+    fn visit_expr(&mut self, e: &'ast ast::Expr) {
+        self.check(&e.attrs, e.span, "expr");
+        self.expr_depth += 1;
+        visit::walk_expr(self, e);
+        self.expr_depth -= 1;
+    }
+    fn visit_arm(&mut self, a: &'ast ast::Arm) {
+        self.check(&a.attrs, a.span, "arm");
+        visit::walk_arm(self, a);
+    }
+    fn visit_field_def(&mut self, f: &'ast ast::FieldDef) {
+        self.check(&f.attrs, f.span, "field");
+        visit::walk_field_def(self, f);
+    }
+    fn visit_variant(&mut self, v: &'ast ast::Variant) {
+        self.check(&v.attrs, v.span, "variant");
+        visit::walk_variant(self, v);
+    }
+    fn visit_expr_field(&mut self, f: &'ast ast::ExprField) {
+        self.check(&f.attrs, f.span, "expr_field");
+        visit::walk_expr_field(self, f);
+    }
+    fn visit_param(&mut self, p: &'ast ast::Param) {
+        self.check(&p.attrs, p.span, "param");
+        visit::walk_param(self, p);
+    }
+}
+
+/// All nodes that carry a skip attribute, in source order, with their kind; `whole_file` if the
+/// crate has an inner skip attribute.
+pub fn skip_nodes(src: &str, edition: &str) -> Option<(Vec<SkipNode>, bool)> {
+    with_crate(src, edition, |k| {
+        let (k, sm) = k?;
+        let mut f = SkipNodeFinder { sm, out: vec![], expr_depth: 0 };
+        let whole = k.attrs.iter().any(attr_is_skip);
+        visit::walk_crate(&mut f, k);
+        f.out.sort_by_key(|n| (n.lo, std::cmp::Reverse(n.hi)));
+        Some((f.out, whole))
+    })
+}
+
+struct MacFinder<'a> {
+    sm: &'a SourceMap,
+    out: Vec<(usize, usize)>,
+}
+
+impl<'a, 'ast> Visitor<'ast> for MacFinder<'a> {
+    fn visit_mac_call(&mut self, m: &'ast ast::MacCall) {
+        self.out.push(span_range(self.sm, m.span()));
+    }
+    fn visit_item(&mut self, i: &'ast ast::Item) {
+        if matches!(i.kind, ast::ItemKind::MacroDef(..)) {
+            self.out.push(span_range(self.sm, i.span));
+        }
+        visit::walk_item(self, i);
+    }
+}
+
+/// Byte ranges of all macro invocations and macro definitions.
+pub fn mac_ranges(src: &str, edition: &str) -> Option<Vec<(usize, usize)>> {
+    with_crate(src, edition, |k| {
+        let (k, sm) = k?;
+        let mut f = MacFinder { sm, out: vec![] };
         visit::walk_crate(&mut f, k);
         Some(f.out)
     })
